@@ -937,7 +937,9 @@ func c06GenRun(r *vf.Rand) (c06Case, c06Obs, []string) {
 	nsrc := 1 + r.Intn(pf.nsrc)
 
 	// source ids: a random selection from one family of related names
-	fam := append([]string{}, c06SrcFamilies[r.Intn(len(c06SrcFamilies))]...)
+	famIdx := r.Intn(len(c06SrcFamilies))
+	g.tags[fmt.Sprintf("srcnames:family%d", famIdx)] = true
+	fam := append([]string{}, c06SrcFamilies[famIdx]...)
 	for i := len(fam) - 1; i > 0; i-- {
 		j := r.Intn(i + 1)
 		fam[i], fam[j] = fam[j], fam[i]
@@ -1222,6 +1224,30 @@ func c06Classify(c c06Case, o c06Obs) (tags []string, nontrivial bool) {
 		for _, n := range seen {
 			if n > 1 {
 				t["set:shared-expression"] = true
+			}
+		}
+	}
+
+	for _, p := range c.Probes {
+		if p.Raw {
+			t["probe:raw-path"] = true
+		}
+	}
+
+	for _, op := range c.Ops {
+		if (op.Kind == "add" || op.Kind == "upd") && len(op.Defs) == 0 {
+			t["set:empty"] = true
+		}
+
+		if len(op.Defs) > 8 {
+			t["set:more-than-8-rules"] = true
+		}
+
+		for _, d := range op.Defs {
+			for _, p := range d.Paths {
+				if strings.Contains(p, "//") || strings.Contains(p, "%") || !strings.HasPrefix(p, "/") || strings.ContainsAny(p, " \xc3\xff") {
+					t["expr:exotic"] = true
+				}
 			}
 		}
 	}
